@@ -101,6 +101,10 @@ func Run(p *Plan, ch simsync.Chooser) *Outcome {
 		if !cacheTouched {
 			installDirectMap()
 		}
+	} else if p.CacheKind == CacheLRUDirect {
+		if !cacheTouched {
+			installDirectLRU(p.CacheCap)
+		}
 	} else if p.CacheKind != CacheDefault {
 		cache = installCache(p.CacheKind, p.CacheCap, p.LossPm, p.MissPm, p.FlushPm)
 	} else {
